@@ -33,7 +33,7 @@ type planFn func(rg *rand.Rand) (cfgT, runFn)
 type class struct {
 	name   string
 	plan   planFn
-	weight int // scenarios per 634 (the quick -n)
+	weight int // scenarios per 644 (the quick -n)
 	min    int
 }
 
@@ -49,6 +49,7 @@ var classes = []class{
 	{"firstdial", planFirstDial, 10, 4},
 	{"straggler", planStraggler, 8, 8},
 	{"parkwrite", planParkWrite, 10, 10},
+	{"t7desel", planT7Desel, 10, 10},
 }
 
 type job struct {
@@ -132,7 +133,7 @@ func main() {
 		if *only != "" && *only != cl.name {
 			continue
 		}
-		n := cl.weight * c.N / 634
+		n := cl.weight * c.N / 644
 		if n < cl.min {
 			n = cl.min
 		}
